@@ -113,11 +113,22 @@ def run(ctx, rep):
             for script, out in MR.enumerate_outcomes("thefittest.utils.crossovers.binomial", lambda: (x.copy(), m.copy(), np.float64(CR)), ug, max_depth=n + 1):
                 case = dict(fn="binomial", individ=x.tolist(), mutant=m.tolist(), CR=CR, draws=script)
                 rep.count("binomial", (n, CR, tuple(script)))
-                j = int(np.floor(n * script[0][1]))
-                exp = [float(m[i]) if (script[1 + i][1] < CR or i == j) else float(x[i]) for i in range(n)]
-                if list(out) != exp:
-                    rep.problem("binomial", "trial does not take the donor at locus j and at every locus whose coin fell below CR",
-                                case, "binomial", True, list(out), exp, "C07_binomial_structure")
+                # the clause itself, independent of how the draws are consumed: every coordinate from the donor or the parent, at least one from the donor
+                outl = [float(v) for v in out]
+                clause = len(outl) == n and all(outl[i] in (float(m[i]), float(x[i])) for i in range(n)) and any(outl[i] == float(m[i]) for i in range(n))
+                if not clause:
+                    rep.problem("binomial", "trial does not take at least one coordinate from the donor (every other one from donor or parent)",
+                                case, "binomial", True, outl, None, "C07_binomial_structure")
+                    continue
+                try:
+                    j = int(np.floor(n * script[0][1]))
+                    exp = [float(m[i]) if (script[1 + i][1] < CR or i == j) else float(x[i]) for i in range(n)]
+                except IndexError:
+                    exp = None
+                if outl != exp:
+                    rep.problem("binomial", "trial is not the donor at locus j and at every locus whose coin fell below CR (randomness consumed differently)",
+                                case, "binomial:draw-usage", False, outl, exp, "C07_binomial_structure")
+                    continue
                 f_bn.add(f"({qv(x)}, {qv(m)}, {C.cq(CR)}, {C.cdraws(script)}, {qv(out)})", case)
 
     # ---------------- strategies: all index outcomes on dyadic populations
